@@ -200,8 +200,8 @@ pub fn mm_sizes(t: Tier) -> Vec<(usize, usize, usize)> {
     v
 }
 
-pub fn run(ctx: &Ctx) -> i32 {
-    let mut st = ctx.run_replays(&dispatch);
+pub fn campaigns(ctx: &Ctx) -> Stats {
+    let mut st = Stats::default();
     let t = ctx.tier;
     // unary operations, all shapes
     let ushapes = all_shapes(t.pick(3, 4), 3);
@@ -221,6 +221,17 @@ pub fn run(ctx: &Ctx) -> i32 {
     // conv
     let ccfgs = conv_cfgs(t.pick(4, 5), 3, t.pick(2, 3), t.pick(&[1, 2][..], &[1, 2, 3][..]), &[1, 2], &[vec![], vec![1], vec![2], vec![2, 2]]);
     st.merge(ctx.run_indexed("conv-configurations", ccfgs.len() as u64 * 3, None, |i| Some(conv_case(&ccfgs[(i / 3) as usize], (i % 3) as usize))));
+    // softmax with rows at very different offsets (squares of row sums stay finite in f32)
+    st.merge(ctx.run_indexed("wide-range-softmax", 4 * 5 * 5, None, |i| {
+        let shapes: [&[usize]; 4] = [&[2, 3], &[3, 2], &[2, 2, 2], &[4, 1, 3]];
+        let offs = [-30.0, -12.0, 0.0, 14.0, 28.0];
+        let d = shapes[(i % 4) as usize];
+        let (o1, o2) = (offs[((i / 4) % 5) as usize], offs[((i / 20) % 5) as usize]);
+        let l = *d.last().unwrap();
+        let n = numel(d);
+        let vals: Vec<f64> = (0..n).map(|j| (if (j / l) % 2 == 0 { o1 } else { o2 }) + ((j * 7) % 5) as f64 * 0.5 - 1.0).collect();
+        Some(GradCase { op: OpKind::Softmax, leaves: vec![LeafSpec { dims: d.to_vec(), vals, tracked: true }], seed: Some(distinct_seed(n)), uses: 1 })
+    }));
     // random values / sizes / parameters
     let (max_rank, max_size, total) = t.pick((4usize, 5usize, 20000u64), (5, 7, 400000));
     let strat = move || {
@@ -229,6 +240,12 @@ pub fn run(ctx: &Ctx) -> i32 {
             .boxed()
     };
     st.merge(ctx.run_prop("random-single-operations", total, strat, |r| if numel(&r.dims) <= 600 { random_case(r) } else { None }));
+    st
+}
+
+pub fn run(ctx: &Ctx) -> i32 {
+    let mut st = ctx.run_replays(&dispatch);
+    st.merge(campaigns(ctx));
     finish(
         ctx,
         st,
